@@ -515,7 +515,7 @@ class Reader:
                     self.occ(u, h, "KCfgAttr", gate, "module level")
                 elif inner:
                     # #![cfg(..)] at the top of a module gates the whole module
-                    self.occ(u, h, "KInnerAttr", gate, "module level")
+                    self.occ(u, h, "KModule", gate, "inner attribute of the module")
                     encl = g_and(encl, gate)
                 else:
                     own = g_and(own, gate)
